@@ -162,8 +162,8 @@ var uniqSeq int64
 var longAgo = time.Date(2001, 2, 3, 4, 5, 6, 0, time.UTC)
 
 // runFile runs the real RunT on the one script file and reads the file back.
-func (r *runner) runFile(file string, update bool) (o outcome) {
-	return r.runFiles(file, update, nil)
+func (r *runner) runFile(file string, update bool, setupCd string) (o outcome) {
+	return r.runFiles(file, update, nil, setupCd)
 }
 
 // companionOf makes a second script for the same run: its archive has entries named like those of the case, with
@@ -181,7 +181,8 @@ func companionOf(orig []byte) []byte {
 	return txtar.Format(c)
 }
 
-func (r *runner) runFiles(file string, update bool, companion []byte) (o outcome) {
+// setupCd: the directory (relative to the work directory) the Setup hook moves the script to, "" for none.
+func (r *runner) runFiles(file string, update bool, companion []byte, setupCd string) (o outcome) {
 	uniqueNames := false
 	if b, err := os.ReadFile(file); err == nil && atomic.AddInt64(&uniqSeq, 1)%2 == 0 {
 		seen := map[string]bool{}
@@ -213,6 +214,14 @@ func (r *runner) runFiles(file string, update bool, companion []byte) (o outcome
 		Setup: func(env *testscript.Env) error {
 			env.Setenv("PATH", r.binDir+string(os.PathListSeparator)+env.Getenv("PATH"))
 			env.Setenv(tableEnv, r.table)
+			if setupCd != "" {
+				// the hook chooses where the script starts (variant setupcd of the model)
+				d := filepath.Join(env.WorkDir, setupCd)
+				if err := os.MkdirAll(d, 0o777); err != nil {
+					return err
+				}
+				env.Cd = d
+			}
 			return nil
 		},
 	}
@@ -268,7 +277,9 @@ func (r *runner) describe(c *caseT) string {
 	if c.By {
 		d += "; plus untouched entries first and last"
 	}
-	if c.Sub {
+	if c.Sub && c.Variant == "setupcd" {
+		d += "; every entry under sub/, the Setup hook starts the script there (Env.Cd)"
+	} else if c.Sub {
 		d += "; every entry under sub/, script runs after `cd sub`"
 	}
 	if c.Variant == "stop" {
@@ -430,7 +441,12 @@ func (r *runner) runCase(idx int, c *caseT) {
 	if idx%3 == 1 && c.Variant != "dup" {
 		comp = companionOf(orig)
 	}
-	o1 := r.runFiles(file, true, comp)
+	setupCd := ""
+	if c.Variant == "setupcd" {
+		setupCd = "sub"
+		res.Count("runs_started_elsewhere_by_setup_hook", 1)
+	}
+	o1 := r.runFiles(file, true, comp, setupCd)
 	if comp != nil {
 		res.Count("runs_with_companion_script", 1)
 		if !bytes.Equal(o1.CompanionAfter, o1.CompanionBefore) || strings.TrimSpace(o1.CompanionVerdict) != "pass" {
@@ -491,7 +507,7 @@ func (r *runner) runCase(idx int, c *caseT) {
 	// ---- run 2: the updated script without UpdateScripts ----
 	if o1.Verdict == "pass" {
 		res.Count("second_runs", 1)
-		o2 := r.runFile(file, false)
+		o2 := r.runFile(file, false, setupCd)
 		det2 := map[string]any{"run": "second (no UpdateScripts)", "verdict": o2.Verdict, "panic": o2.Panic,
 			"file_before": string(o1.After), "file_after": string(o2.After), "log": tail(o2.Log, 1500)}
 		if o2.Verdict == "panic" {
@@ -526,7 +542,7 @@ func (r *runner) runCase(idx int, c *caseT) {
 				vutil.Fatalf("write: %v", err)
 			}
 			res.Count("crlf_runs", 1)
-			o := r.runFile(file, true)
+			o := r.runFile(file, true, setupCd)
 			det := map[string]any{"run": "first (UpdateScripts), script text with CR LF line endings", "script": string(cr), "verdict": o.Verdict,
 				"panic": o.Panic, "file_after": string(o.After), "log": tail(o.Log, 1500)}
 			if o.Verdict != o1.Verdict {
@@ -555,7 +571,7 @@ func (r *runner) runCase(idx int, c *caseT) {
 				vutil.Fatalf("write: %v", err)
 			}
 			res.Count("noncanonical_runs", 1)
-			o := r.runFile(file, true)
+			o := r.runFile(file, true, setupCd)
 			det := map[string]any{"run": "first (UpdateScripts), non-canonical spelling", "script": string(nc), "verdict": o.Verdict,
 				"panic": o.Panic, "file_after": string(o.After), "log": tail(o.Log, 1500)}
 			if o.Verdict == "panic" {
